@@ -191,6 +191,9 @@ func CheckPanic(ep *core.Episode, prop string, c *SrvConn) bool {
 
 // Send is one scripted transmission of the peer.
 type Send struct {
+	// Kind: "" (data), "fin" (half-close after everything queued), "rst"
+	// (abort once everything queued so far has been delivered)
+	Kind string
 	Data []byte
 	// AfterResps: number of final responses that must have been received first.
 	AfterResps int
@@ -218,9 +221,10 @@ type Client struct {
 	// (or the server closed).
 	CloseWhenDone bool
 	// NoInterim: a 100 status is an ordinary final response (no Expect: 100-continue in play)
-	NoInterim bool
-	finSent   bool
-	sentBytes int
+	NoInterim    bool
+	finSent      bool
+	pendingTimer bool
+	sentBytes    int
 }
 
 func NewClient(ep *core.Episode, c *SrvConn) *Client {
@@ -269,6 +273,31 @@ func (cl *Client) Enabled(add func(core.Event)) {
 		s := cl.Sends[cl.next]
 		if len(cl.Resps) >= s.AfterResps && cl.Continues >= s.AfterContinues && !cl.C.B.IsClosed() {
 			i := cl.next
+			if s.Kind == "rst" && cl.C.A.InflightTo() > 0 {
+				return
+			}
+			if s.Kind == "fin" || s.Kind == "rst" {
+				kind := s.Kind
+				add(core.Event{Key: fmt.Sprintf("peer-%s %s #%d", kind, cl.C.Name, i), Weight: 20, Apply: func() {
+					fire := func() {
+						if kind == "fin" {
+							cl.finSent = true
+							cl.C.B.CloseWrite()
+						} else {
+							cl.C.B.Reset()
+						}
+						cl.ep.S.Poke()
+					}
+					cl.next++
+					if s.Delay > 0 {
+						cl.pendingTimer = true
+						time.AfterFunc(s.Delay, func() { cl.pendingTimer = false; fire() })
+					} else {
+						fire()
+					}
+				}})
+				return
+			}
 			add(core.Event{Key: fmt.Sprintf("send %s #%d %s", cl.C.Name, i, s.Label), Weight: 20, Apply: func() {
 				base := cl.sentBytes
 				for _, b := range s.Bounds {
@@ -289,3 +318,5 @@ func (cl *Client) Enabled(add func(core.Event)) {
 		}})
 	}
 }
+
+func stackString() string { return string(debug.Stack()) }
